@@ -443,7 +443,8 @@ pub fn plan(prop: &str, tier: Tier) -> Option<Plan> {
         }
         "C17" => {
             p.armed = O_STORAGE;
-            let d = if q { 5 } else { 8 };
+            // each node is evaluated at six capacities: one level less than the other trees
+            let d = if q { 5 } else { 7 };
             let c = Companions::Capacities(vec![0, 1, 2, 3, 4]);
             // every entry point that stores headers, init and uninit
             let mut lanes: Vec<(Entry, u8)> = vec![(Entry::Headers, 0), (Entry::ReqParse, 0), (Entry::ReqUninit, 0), (Entry::RespParse, 0), (Entry::RespUninit, 0)];
